@@ -21,7 +21,11 @@ def determinism(prop: str, n: int, vseed: int) -> int:
     t0 = time.monotonic()
     base, W = driver.run_batches(prop, "quick", vseed, n, {}, hashseed="0")
     a = driver.merge(base)
+    # the configurations must not share a wall-clock second: anything stamped with the real
+    # clock (e.g. a gzip header) would otherwise look deterministic
+    time.sleep(1.2)
     other, _ = driver.run_batches(prop, "quick", vseed, n, {}, hashseed="424242")
+    time.sleep(1.2)
     b = driver.merge(other)
     few = max(1, W // 5)
     single, _ = driver.run_batches(prop, "quick", vseed, n, {}, hashseed="0", workers=few)
